@@ -88,7 +88,7 @@ type EventDecl struct {
 	When   *CExpr // optional predicate over a0..an (call arguments; a0 = receiver for methods) and, for ret events, r0..rn
 	Ret    bool   // emitted after the call returned (results visible)
 	Spawn  bool   // "go": the start of a goroutine running Callee (not a call: the spawner does not wait for it)
-	Chan   string // "send" / "recv": a channel operation on the channel held in struct field Callee (pkg.Type.field)
+	Chan   string // "send" / "recv" / "close": a channel operation on the channel held in struct field Callee (pkg.Type.field)
 }
 
 // ChanInv: every value sent on the channel satisfies Pred (over v); receivers may rely on it
@@ -307,7 +307,7 @@ func (db *ContractDB) LoadFile(path, pkgPath string, assumed bool) error {
 				curSpec = sf
 			case "event":
 				// event Name = call <callee> [when expr]
-				m := regexp.MustCompile(`^(\w+)\s*=\s*(call|ret|go|send|recv)\s+(\S+)(?:\s+when\s+(.*))?$`).FindStringSubmatch(rest)
+				m := regexp.MustCompile(`^(\w+)\s*=\s*(call|ret|go|send|recv|close)\s+(\S+)(?:\s+when\s+(.*))?$`).FindStringSubmatch(rest)
 				if m == nil {
 					return errf(l, "event <Name> = call|ret <callee> [when <expr>]  or  send|recv <Type.field>")
 				}
@@ -315,7 +315,7 @@ func (db *ContractDB) LoadFile(path, pkgPath string, assumed bool) error {
 					return errf(l, "duplicate event %s", m[1])
 				}
 				ev := &EventDecl{Pkg: pkgPath, Name: m[1], Callee: m[3], Ret: m[2] == "ret"}
-				if m[2] == "send" || m[2] == "recv" {
+				if m[2] == "send" || m[2] == "recv" || m[2] == "close" {
 					ev.Chan = m[2]
 				}
 				if m[2] == "go" {
